@@ -63,19 +63,19 @@ ASSUMPTIONS = [
     "a grid accepted from a damaged file is judged with loose tolerances (1e-9) on first/last angle and antipodal partners",
     "sampling: tuples and file damages not generated are not covered; no system-call fault injection (EACCES/EIO) beyond a directory in place of a file",
 ]
-TECHNIQUE = ("runtime monitor on generated parameter tuples under ASan/UBSan/float-cast-overflow with assertions on: every "
-             "constructor / loader call is first observed in a forked child (returns, throws, or dies), accepted grids are "
-             "measured against independent long-double references (uniform angles, antipodal pairs, midpoints, nesting with "
-             "divideBy2+1, coarsening chain for the level count of setup()), files are written, reloaded and damaged")
-LEVEL_TEXT = ("sampled executions judged by an oracle: 600 (quick) / 60 000 (thorough) parameter tuples over the whole stated "
+TECHNIQUE = ("runtime monitor on generated parameter tuples, ASan/UBSan/float-cast-overflow build (assertions on) plus an -O2 build "
+             "under glibc heap checking: a supervisor process forks one measuring process per tuple; inside it every constructor / "
+             "loader call is first observed in a forked probe (returns, throws, or dies), accepted grids are measured against "
+             "independent long-double references (uniform angles, antipodal pairs, midpoints, nesting with divideBy2+1, coarsening "
+             "chain for the level count of setup()); files are written, reloaded and damaged in 19 ways")
+LEVEL_TEXT = ("sampled executions judged by an oracle: 1 200 (quick) / 60 000 (thorough) parameter tuples over the whole stated "
               "range incl. out-of-range refinement radii; every node of every accepted grid compared (thresholds 256 and 64 "
-              "unit round-offs, observed <= 2.5); setup() level count reproduced by coarsening; write/load round trip at "
-              "precisions 3..18 and 19 kinds of damaged files")
-LEVEL_NOTE = ("covers only generated tuples; memory errors are seen only where ASan red zones / assertions catch them; the level "
-              "rule is checked for admissibility and the cap, not for maximality; setup() itself is run only on grids up to "
-              "5 000 (asan) / 20 000 (plain) nodes, larger grids use the private level rule through the friend accessor")
-
-
+              "unit round-offs, observed <= 1.0 and <= 0.5); setup() level count reproduced by coarsening; write/load round trip "
+              "at precisions 3..18 and 19 kinds of damaged files; death of any call is an observation attributed to the tuple")
+LEVEL_NOTE = ("covers only generated tuples; memory errors are seen only where ASan red zones, assertions or glibc heap checks "
+              "catch them; the level rule is checked for admissibility and the cap, not for maximality; setup() itself is run "
+              "only on grids up to 2 500 (asan) / 5 000 (plain) nodes, larger grids use the private level rule through the "
+              "friend accessor; no system-call fault injection")
 
 def finalize(verdict):
     # scratch grid files of cases whose process died before it could remove them
